@@ -247,10 +247,41 @@ def check(ctx):
     C15 = importlib.import_module("props.C15")
     class Idx(util.PrefixedCtx):
         def ob(self, rule, key, ok, site="", detail="", nontrivial=True, undecided=False):
-            if rule in ("R15.1", "R15.2") and ("try_publish_leaked_internal_index" in key or "try_unleak_slot_index_internal" in key):
+            if rule in ("R15.1", "R15.2") and ("atomic_move" in key or "full_sync_move" in key):      # every function of the two rings (the index API first of all)
                 return super().ob(rule, key, ok, site, detail, nontrivial, undecided)
             return ok
     C15.check(Idx(ctx, "R02.5"))
+    # ---------------------------------------------------------------- R02.6 'buffer full' is answered only when the reservation failed
+    # (a send is rejected only if at some instant all slots were taken: the only source of a rejection is the fullness guard inside the reservation; a publish
+    #  path that gives up for another reason -- a spin budget, a busy neighbour -- and hands the item back reports a queue with room as full)
+    C01 = importlib.import_module("props.C01")
+    for adt in (AM, FSM, R.AZC, R.FZC):
+        for fn in ("publish_movable", "publish"):
+            for k in [k for k in fx.by_key if k.startswith(adt + " as ") and k.endswith("::" + fn)]:
+                body = Body(fx.fn(k)); dg = dag.Dag(body)
+                res = [(b, c) for (b, c) in body.calls if c.get("fname") in ("leak_slot_internal", "leak_slot")]
+                if len(res) != 1: continue
+                some_t = None
+                for b in body.reachable:
+                    vs = util.variant_switch(body, dg, b)
+                    if vs and vs[3] == res[0][1]["dst"]["l"] and not vs[4]: some_t = vs[1].get(1, vs[2])
+                if some_t is None: continue
+                reach = util.flag_paths(body, dg, some_t)
+                bad = None
+                for b in sorted(reach):
+                    for st in body.stmts(b):
+                        if st[0] != "A" or st[1]["p"] or st[1]["l"] != 0 or st[2][0] != "Agg": continue
+                        if st[2][1][0] == "Tuple" and len(st[2][2]) == 2:
+                            second = strip_casts(dg.expr(st[2][2][1])); first = strip_casts(dg.expr(st[2][2][0]))
+                            if (second[0] == "adt" and second[1] == "Some") or (first[0] == "adt" and first[1] == "None"): bad = b
+                        elif st[2][1][0] == "Adt" and st[2][1][2] == "Some" and fn == "publish": bad = b
+                ctx.ob("R02.6", f"{k}|rejects-only-when-the-reservation-failed", bad is None, body.loc(bad) if bad is not None else f"{body.f['file']}:{body.f['line']}",
+                       "once a slot was reserved the operation answers acceptance on every path" if bad is None else
+                       "a path that holds a reserved slot answers 'rejected' (hands the item / setter back): the queue is reported full although the fullness guard passed")
+    ctx.floor("R02.6", 6)
+    # ---------------------------------------------------------------- R02.7 full-sync: the lock is the reservation (shared with C01 R01.6)
+    if not isinstance(ctx, util.PrefixedCtx):
+        C01.check_full_sync_reservation(ctx, "R02.7")
 
 def _is_assertion(body, c):
     """one edge of the comparison leads nowhere but into a panic (no Return reachable): `assert!` / `debug_assert!`"""
